@@ -544,6 +544,21 @@ def g5iii_allocator_validation(prog):
     for p in E.paths:
         for e in p.calls(lambda e: e['path'].startswith('core::slice') and e['name'] in ('get_mut', 'get_unchecked_mut', 'index_mut') and any(is_adt(x, 'core::option::Option') for x in e['f'].get('args', []))):
             slots_root = slots_root or pathsem.iter_chain(e['args'][0])[0]
+    # scans of the slot table whose `None` outcome is *rejected* (an Err return), as opposed to assumed away
+    rejecting = set()
+    for p in E.paths:
+        if p.ended != 'return' or not (isinstance(p.ret, tuple) and p.ret[0] == 'agg' and p.ret[2] == 'Err') or slots_root is None:
+            continue
+        for a_, v in p.conds:
+            if isinstance(a_, tuple) and a_[0] in ('next', 'nonempty', 'consumed') and v in (1, True) and pathsem.iter_chain(a_[1])[0] == slots_root:
+                el = ('elem', a_[1]) + tuple(a_[2:3] if a_[0] == 'next' else ())
+                for c_, cv in p.conds:
+                    if isinstance(c_, tuple) and c_[0] == 'discr' and cv == 0:
+                        inner = S(c_[1])
+                        while isinstance(inner, tuple) and inner[0] == 'f' and inner[3] == 'tuple':
+                            inner = S(inner[1])
+                        if isinstance(inner, tuple) and inner[0] == 'elem' and pathsem.iter_chain(inner[1])[0] == slots_root and inner[2:] == el[2:]:
+                            rejecting.add(a_[1])
     for p in E.paths:
         if p.ended not in ('return', 'cutoff'):
             continue
@@ -608,14 +623,11 @@ def g5iii_allocator_validation(prog):
         last_store = max([e['i'] for e in stores] or [-1])
         scans = []
         for (a_, v), at in zip(p.conds, p.conds.at):
-            if isinstance(a_, tuple) and a_[0] in ('next', 'nonempty') and pathsem.iter_chain(a_[1])[0] == slots_root:
+            if isinstance(a_, tuple) and a_[0] in ('next', 'nonempty', 'consumed') and pathsem.iter_chain(a_[1])[0] == slots_root:
                 scans.append((a_, v, at))
-        els = [('elem', a_[1], a_[2]) for a_, v, at in scans if a_[0] == 'next' and v == 1] + [('elem', a_[1]) for a_, v, at in scans if a_[0] == 'nonempty' and v is True]
+        els = [('elem', a_[1], a_[2]) for a_, v, at in scans if a_[0] == 'next' and v == 1] + [('elem', a_[1]) for a_, v, at in scans if a_[0] in ('nonempty', 'consumed') and v is True]
 
-        def strip_enum(e):
-            return e
-
-        def slot_state(e):
+        def slot_state(e, p=p):
             """discriminant known for a scanned element (possibly behind enumerate's tuple / a reference)"""
             root, kinds = pathsem.iter_chain(e[1])
             for a_, v in p.conds:
@@ -628,7 +640,7 @@ def g5iii_allocator_validation(prog):
             return None
         states = [slot_state(e) for e in els]
         if is_ok:
-            ended = [1 for a_, v, at in scans if at > last_store and ((a_[0] == 'next' and v == 0) or a_[0] == 'nonempty')]
+            ended = [1 for a_, v, at in scans if at > last_store and ((a_[0] == 'next' and v == 0) or a_[0] in ('nonempty', 'consumed')) and a_[1] in rejecting]
             if not ended:
                 once('no-missing-slot-check', None, 'no check that every slot was filled (missing entity indices would reach unwrap_unchecked)')
             elif any(s_ != 1 for s_ in states):
